@@ -16,8 +16,17 @@ Shared model of C12 and C13.  It mirrors, for MiniF regions,
 
 Quirks kept: `is_written_first` looks at the first *textual* access only; a loop records
 WRITE then READ of its variable *before* the reads of its bounds; an assignment records the
-RHS reads, then the LHS subscript reads, then the LHS write.  Only the access kinds READ and
-WRITE occur in MiniF (no READWRITE/INC), so `has_read_write` is constantly false.
+RHS reads, then the LHS subscript reads, then the LHS write.
+
+Unanalysed code (`RStmt.code`): a CodeBlock (since `fix: every name used in a CodeBlock is
+reported as a READWRITE access`: `CodeBlock.reference_accesses` = READWRITE of every
+`get_symbol_names()` entry), a statement that contains an expression CodeBlock, or a call of
+unknown intent (`Call.reference_accesses`: READWRITE of every by-reference argument, READ of its
+subscripts).  PSyclone sees only the access list `acc`; `body` is what the code does.  A
+READWRITE access is represented by the adjacent pair READ;WRITE whose events carry `rw = true`:
+`is_written_first` (the first access is `AccessType.WRITE` — false for READWRITE), `is_read`,
+`is_written` (READWRITE is in `all_read_accesses` and `all_write_accesses`) evaluate on the pair
+exactly as on the single access, and `has_read_write` = some event has `rw`.
 Core Lean only. -/
 namespace RegionData
 open MiniF
@@ -29,18 +38,37 @@ structure Ev where
   var : Nat
   write : Bool
   arr : Bool
+  /-- the event is one half of a READWRITE access -/
+  rw : Bool
   deriving DecidableEq, Repr, Inhabited
 
 /-- `Reference.reference_accesses`: subscript reads first, then the READ of the reference -/
 def eacc : Expr → List Ev
   | .lit _ => []
-  | .var x => [⟨x, false, false⟩]
-  | .idx1 a i => eacc i ++ [⟨a, false, true⟩]
-  | .idx2 a i j => eacc i ++ (eacc j ++ [⟨a, false, true⟩])
+  | .var x => [⟨x, false, false, false⟩]
+  | .idx1 a i => eacc i ++ [⟨a, false, true, false⟩]
+  | .idx2 a i j => eacc i ++ (eacc j ++ [⟨a, false, true, false⟩])
   | .un _ e => eacc e
   | .bin _ a b => eacc a ++ eacc b
 
-/-- MiniF statements plus `DO WHILE` (PSyIR `WhileLoop`), which `MiniF.Stmt` lacks -/
+/-- one entry of the access list PSyclone records for unanalysed code -/
+inductive Acc where
+  | rw (x : Nat) (arr : Bool)      -- READWRITE of a name / by-reference argument
+  | rd (e : Expr)                  -- the READs of an analysed sub-expression (`Reference.reference_accesses`)
+  | wr (x : Nat) (arr : Bool)      -- WRITE (the left-hand side of an assignment whose RHS holds a CodeBlock)
+  deriving DecidableEq, Repr, Inhabited
+
+def accEv : Acc → List Ev
+  | .rw x arr => [⟨x, false, arr, true⟩, ⟨x, true, arr, true⟩]
+  | .rd e => eacc e
+  | .wr x arr => [⟨x, true, arr, false⟩]
+
+def accEvs : List Acc → List Ev
+  | [] => []
+  | a :: r => accEv a ++ accEvs r
+
+/-- MiniF statements plus `DO WHILE` (PSyIR `WhileLoop`), which `MiniF.Stmt` lacks, plus
+unanalysed code `code acc body` (CodeBlock / call of unknown intent) -/
 inductive RStmt where
   | skip
   | seq (a b : RStmt)
@@ -50,6 +78,7 @@ inductive RStmt where
   | ite (c : Expr) (t f : RStmt)
   | loop (v : Nat) (lo hi step : Expr) (body : RStmt)
   | whileDo (c : Expr) (body : RStmt)
+  | code (acc : List Acc) (body : RStmt)
   deriving DecidableEq, Repr, Inhabited
 
 /-- `DO WHILE (c) body`: the condition is evaluated before every iteration; at most `n`
@@ -71,6 +100,7 @@ def rexec (fuel : Nat) : RStmt → Store → Store
       runIters (rexec fuel body) v (eval lo σ) (eval step σ)
         (trip (eval lo σ) (eval hi σ) (eval step σ)) 0 σ
   | .whileDo c body, σ => whileN c (rexec fuel body) fuel σ
+  | .code _ body, σ => rexec fuel body σ
 
 def ofStmt : Stmt → RStmt
   | .skip => .skip
@@ -91,13 +121,35 @@ def rseqs : List RStmt → RStmt
 def sacc : RStmt → List Ev
   | .skip => []
   | .seq a b => sacc a ++ sacc b
-  | .assign x e => eacc e ++ [⟨x, true, false⟩]
-  | .store1 a i e => eacc e ++ (eacc i ++ [⟨a, true, true⟩])
-  | .store2 a i j e => eacc e ++ (eacc i ++ (eacc j ++ [⟨a, true, true⟩]))
+  | .assign x e => eacc e ++ [⟨x, true, false, false⟩]
+  | .store1 a i e => eacc e ++ (eacc i ++ [⟨a, true, true, false⟩])
+  | .store2 a i j e => eacc e ++ (eacc i ++ (eacc j ++ [⟨a, true, true, false⟩]))
   | .ite c t f => eacc c ++ (sacc t ++ sacc f)
   | .loop v lo hi st b =>
-      ⟨v, true, false⟩ :: ⟨v, false, false⟩ :: (eacc lo ++ (eacc hi ++ (eacc st ++ sacc b)))
+      ⟨v, true, false, false⟩ :: ⟨v, false, false, false⟩ :: (eacc lo ++ (eacc hi ++ (eacc st ++ sacc b)))
   | .whileDo c b => eacc c ++ sacc b      -- `WhileLoop.reference_accesses`: condition, then body
+  | .code acc _ => accEvs acc           -- only the recorded access list; the code itself is not analysed
+
+/-- every access of `body` is announced by an access of the same variable and kind in `evs`
+(an array access by an array access) -/
+def coveredBy (evs : List Ev) (body : RStmt) : Bool :=
+  (sacc body).all (fun e => evs.any (fun e' => e'.var == e.var && e'.write == e.write && (e'.arr || !e.arr)))
+
+/-- hypothesis about unanalysed code, explicit in every theorem that needs it: the recorded
+access list of each `code` announces everything its code does — for a CodeBlock: the code uses
+no variable whose name does not occur in it (`get_symbol_names` returns every `Name` of the parse
+tree); for a call of unknown intent: the callee touches nothing but its by-reference arguments
+(no global state).  Trivially true of `code`-free statements (`covered_ofStmt`). -/
+def covered : RStmt → Bool
+  | .skip => true
+  | .seq a b => covered a && covered b
+  | .assign _ _ => true
+  | .store1 _ _ _ => true
+  | .store2 _ _ _ _ => true
+  | .ite _ t f => covered t && covered f
+  | .loop _ _ _ _ b => covered b
+  | .whileDo _ b => covered b
+  | .code acc body => coveredBy (accEvs acc) body && covered body
 
 /-- access summary of a region given as a list of consecutive statements -/
 def accSummary (region : List RStmt) : List Ev := sacc (rseqs region)
@@ -115,6 +167,8 @@ def writtenFirst (evs : List Ev) (x : Nat) : Bool :=
 def isRead (evs : List Ev) (x : Nat) : Bool := evs.any (fun e => e.var == x && !e.write)
 def isWritten (evs : List Ev) (x : Nat) : Bool := evs.any (fun e => e.var == x && e.write)
 def isArr (evs : List Ev) (x : Nat) : Bool := evs.any (fun e => e.var == x && e.arr)
+/-- `has_read_write`: some access is READWRITE -/
+def hasRW (evs : List Ev) (x : Nat) : Bool := evs.any (fun e => e.var == x && e.rw)
 
 def dedup : List Nat → List Nat
   | [] => []
@@ -184,6 +238,7 @@ def rwvars : RStmt → List Nat
   | .ite _ t f => rwvars t ++ rwvars f
   | .loop v _ _ _ b => v :: rwvars b
   | .whileDo _ b => rwvars b
+  | .code _ b => rwvars b
 
 abbrev Defs := List Nat × List (Nat × Expr)
 
@@ -234,6 +289,7 @@ def chk (K : List Nat) : RStmt → Defs → Option Defs
         | some Sb => if subA H Sb.2 then some (S.1, H) else none
         | none => none
       else none
+  | .code _ b, S => chk K b S     -- the code itself is examined (with the RECORDED inputs `K`)
 
 /-- every variable whose first access is a write and that is read afterwards is, at each of
 those reads, a scalar assigned unconditionally before (earlier in an enclosing sequence, in
@@ -259,10 +315,12 @@ inductive Cl where
   | copyin | copyout | copy
   deriving DecidableEq, Repr, Inhabited
 
-/-- the dictionary `create_data_movement_deep_copy_refs` puts a non-scalar signature in
-(`has_read_write` is false in MiniF) -/
+/-- the dictionary `create_data_movement_deep_copy_refs` puts a non-scalar signature in:
+`has_read_write` is tested FIRST — a signature with a READWRITE access anywhere goes to `copy`
+whatever its first access -/
 def clauseOf (evs : List Ev) (x : Nat) : Cl :=
-  if isRead evs x then
+  if hasRW evs x then .copy
+  else if isRead evs x then
     if isWritten evs x then
       if writtenFirst evs x then .copyout else .copy
     else .copyin
@@ -301,41 +359,26 @@ def clausesP (par : List (Nat × Nat)) (s : RStmt) : Clauses :=
     cout := withParents par (clauses s).cout
     cpy := withParents par (clauses s).cpy }
 
-/-- calls of unknown intent: every argument gets a READWRITE access, exported as READ then
-WRITE — equivalent for `is_written_first`, `is_read`, `is_written`, but
-`create_data_movement_deep_copy_refs` tests `has_read_write` FIRST: a signature with a
-READWRITE access anywhere goes to `copy` whatever its first access.  `rw` = the variables that
-are arguments of such calls in the region (differential run only; not covered by theorems). -/
-def clausesRW (rw : List Nat) (c : Clauses) : Clauses :=
-  { cin := c.cin.filter (fun x => !rw.contains x)
-    cout := c.cout.filter (fun x => !rw.contains x)
-    cpy := c.cpy ++ (c.cin ++ c.cout).filter rw.contains }
-
-def clausesG (rw : List Nat) (par : List (Nat × Nat)) (s : RStmt) : Clauses :=
-  let c := clausesRW rw (clauses s)
-  { cin := withParents par c.cin, cout := withParents par c.cout, cpy := withParents par c.cpy }
-
-/-- region items as seen by `ACCDataTrans.validate`: a MiniF statement, or a top-level node
-that is or contains (`walk`) a node of an excluded type (`CodeBlock`, `Return`, `PSyDataNode`) -/
+/-- region items as seen by `ExtractTrans/ACCDataTrans.validate`: a statement, or a top-level
+node that is or contains (`walk`) a node of an excluded type (`CodeBlock`, `Return`,
+`PSyDataNode`) — `s` is that node as a statement (a CodeBlock: `code`; a RETURN: `skip`) -/
 inductive Item where
   | stmt (s : RStmt)
-  | excluded
+  | excluded (s : RStmt)
   deriving Repr, Inhabited
 
 def itemsStmt : List Item → List RStmt
   | [] => []
   | .stmt s :: r => s :: itemsStmt r
-  | .excluded :: r => itemsStmt r
+  | .excluded s :: r => s :: itemsStmt r
 
 def hasExcluded : List Item → Bool
   | [] => false
   | .stmt _ :: r => hasExcluded r
-  | .excluded :: _ => true
+  | .excluded _ :: _ => true
 
-/-- plain `get_in_out_parameters` on a node list that contains CodeBlocks: `CodeBlock` has no
-`reference_accesses` of its own, so whatever a CodeBlock reads or writes is invisible — a
-statement CodeBlock contributes nothing (an expression CodeBlock inside a statement is
-exported as a literal, i.e. also contributes nothing) -/
+/-- plain `get_in_out_parameters` on a node list that may contain CodeBlocks (they contribute
+the READWRITE accesses of their names) -/
 def inOutItems (items : List Item) : List Nat × List Nat := inOut (itemsStmt items)
 
 /-- `ExtractTrans.apply` (+ `ExtractNode` lowering): `none` = `TransformationError` — among the
@@ -351,11 +394,11 @@ def accDataTrans (hasEnterData : Bool) (items : List Item) : Option Clauses :=
   if items.isEmpty || hasExcluded items || hasEnterData then none
   else some (clauses (rseqs (itemsStmt items)))
 
-/-- the same with structure members and call arguments (`rw`, `par` empty give `accDataTrans`) -/
-def accDataTransP (hasEnterData : Bool) (rw : List Nat) (par : List (Nat × Nat)) (items : List Item) :
+/-- the same with structure members (`par` empty gives `accDataTrans`) -/
+def accDataTransP (hasEnterData : Bool) (par : List (Nat × Nat)) (items : List Item) :
     Option Clauses :=
   if items.isEmpty || hasExcluded items || hasEnterData then none
-  else some (clausesG rw par (rseqs (itemsStmt items)))
+  else some (clausesP par (rseqs (itemsStmt items)))
 
 /-! ### execution with separate device memory
 
